@@ -100,14 +100,16 @@ def _pj(x):
     return json.dumps(x, sort_keys=False, default=str)
 
 
-def kfull(s, ghost):
+def kfull(s, ghost, extra=True):
     g = s._g
     nodes = tuple((n, type(g[n]).__name__, _pj(g[n]._params), _pj(g[n]._limits), tuple(g.successor_indices(n)), tuple(g.predecessor_indices(n)))
                   for n in g.node_indices())
     A = g.attrs
     regs = tuple((k, _pj(A[k]) if k != "pnames" else _pj(sorted((int(i), v) for i, v in A[k].items())))
                  for k in ["name", "nodes", "groups", "rails", "phase_conf", "phases", "pnames"])
-    # any instance attribute other than the graph and the documented per-analysis caches is hidden state: make it visible
+    if not extra:  # core key: what the property talks about (used for before / after comparisons, so that a benign cache attribute is no alarm)
+        return (nodes, regs, tuple(ghost))
+    # for MERGING states any other instance / graph attribute counts as hidden state: a finer key can only cost time, never hide a behaviour
     extra = tuple(sorted((k, repr(v)[:200]) for k, v in s.__dict__.items() if k not in ("_g", "_parents", "_childs", "_topo_nodes", "_phase_lkup")))
     extra += tuple(sorted((k, repr(v)[:200]) for k, v in A.items() if k not in ("name", "nodes", "groups", "rails", "phase_conf", "phases", "pnames", "hidx")))
     return (nodes, regs, tuple(ghost), extra)
@@ -451,6 +453,7 @@ def _expand(task):
     B, letters, trans_check, phase_ops = _CTX["B"], _CTX["letters"], _CTX["trans_check"], _CTX["phase_ops"]
     s0, g0 = replay(seed, hist)
     key0 = kfull(s0, g0)
+    core0 = kfull(s0, g0, extra=False)
     out = []
     memo = {}
     live = set(s0._g.attrs["nodes"])
@@ -467,7 +470,7 @@ def _expand(task):
         key = kfull(s, g2)
         viol = []
         if trans_check is not None:
-            viol = trans_check(seed, hist, op, s0, key0, s, key, idb, exc, memo)
+            viol = trans_check(seed, hist, op, s0, core0, s, kfull(s, g2, extra=False), idb, exc, memo)
         out.append((op, cost, khash(key), exc is not None, type(exc).__name__ if exc is not None else "", viol, key == key0))
     return (seed, hist, used, out)
 
